@@ -92,11 +92,16 @@ PROPS["C07"] = dict(
 )
 
 PROPS["C08"] = dict(
-    inject=[("src/bigint/convert.rs", "c08/convert.rs"), ("src/biguint/convert.rs", "c08/floats.rs")],
+    inject=[("src/bigint/convert.rs", "c08/convert.rs"), ("src/biguint/convert.rs", "c08/floats.rs"),
+            ("src/biguint/shift.rs", "c07/biguint_shift.rs")],
     kani=[dict(filter_q="c08_q_", filter_t=["c08_q_", "c08_t_"], jobs=14, timeout_q=200, timeout_t=900)],
     functions=["ToPrimitive for BigInt/BigUint (to_i8..to_u128,to_isize,to_usize)", "TryFrom<&BigInt>/<BigInt>/<&BigUint>/<BigUint> for 12 primitive types",
-               "From<prim> for BigInt/BigUint", "FromPrimitive", "ToBigInt/ToBigUint for primitives", "TryFrom<signed> for BigUint"],
+               "From<prim> for BigInt/BigUint", "FromPrimitive", "ToBigInt/ToBigUint for primitives", "TryFrom<signed> for BigUint",
+               "high_bits_to_u64", "ToPrimitive::to_f64/to_f32 for BigUint"],
     bounds_quick="big -> primitive: values of 0..3 digits, both signs, every digit symbolic (covers every MIN/MAX+-k edge of all 12 types); primitive -> big: every value of each type",
-    outside="float rounding beyond the stated float harness bounds; values longer than 3 digits (they never fit any primitive)",
-    trusted=[],
+    bounds_thorough="as quick plus all 12 types at all lengths 0..3; to_f64 explicit-IEEE oracle at 2,3,5,16,17 digits; from_f64/from_f32 harnesses are ATTEMPTED (reported undecided when the cap is hit)",
+    outside="from_f64/from_f32 (float trunc + integer_decode + by-value shift does not finish under CBMC within the cap: measured 140 s then solver resource error) - only attempted in the thorough tier; to_f32 beyond 2 digits; to_f64 at lengths other than those listed",
+    trusted=["stub: f64::powi/f32::powi(2.0, e) -> exact power of two by bit pattern (CBMC's __builtin_powi model is inexact); asserted to be used only on base 2.0, 0 <= e <= MAX_EXP",
+             "CBMC's IEEE-754 int->float conversion and float multiply (to_float_* harnesses); the to_f64_bits_* harnesses avoid the cast by building the expected bit pattern explicitly",
+             "stub: Vec::shrink_to_fit -> no-op"],
 )
